@@ -98,6 +98,11 @@ class Arm:
         """the Ok value of `call` becomes the current element: assigned to the element variable, returned as
         Ok(..)/directly, or handed as the element argument to a later mechanism call whose result is"""
         b = self.body
+        if getattr(self.R, "tp_inplace", False) and call.node["callee"].get("path") == self.R.tp.name:
+            # the tag parser updates the element it is handed in place; its Result must be `?`-propagated or returned
+            if call.node["dest"]["l"] == 0 and not call.node["dest"]["p"]:
+                return True
+            return any(cname(c.node) == "std::ops::Try::branch" and ("call", call) in b.origins(c.node["args"][0]) for c in b.calls())
         if self.via is None:
             if _result_becomes_root(self.R, call):
                 return True
@@ -184,8 +189,10 @@ class Roles:
         self.tp_param = {}
         for i, t in enumerate(f["inputs"]):
             s = t.get("s", "")
-            if t.get("adt") == "element::Element" and t.get("refs") == 0:
+            if t.get("adt") == "element::Element" and (t.get("refs") == 0 or s.startswith("&mut ")):
                 self.tp_param["root"] = i + 1
+                # the current element is taken by value and handed back, or updated in place through a unique reference
+                self.tp_inplace = t.get("refs") != 0
             elif "BytesStart" in s:
                 self.tp_param["event"] = i + 1
             elif s.startswith("&mut std::vec::Vec<std::string::String>"):
@@ -1218,6 +1225,35 @@ def _root_local_of(b, t):
     return None
 
 
+def _elementwise_copy(tp, src_local, blocks):
+    """a loop over the whole list `src_local` (by value or by reference, no adapter) that pushes, unconditionally, the
+    item itself or the item wrapped in a Necessity variant onto another fresh vector -> (push site, new list, tag)"""
+    from .c16 import peel_iter
+    for c in tp.calls():
+        if cname(c.node) != "std::iter::Iterator::next" or c.bb not in blocks:
+            continue
+        coll, adapters = peel_iter(term_of(tp, c.node["args"][0]))
+        if adapters or _root_local_of(tp, coll) != src_local:
+            continue
+        lp = find_loop_of(tp, c.bb)
+        if lp is None:
+            continue
+        ps = [x for x in tp.calls() if cname(x.node) == "std::vec::Vec::push" and x.bb in lp[1]]
+        if len(ps) != 1 or guards_of(tp, ps[0].bb, within=lp[1]):
+            continue
+        val = strip(term_of(tp, ps[0].node["args"][1]), mir.VALUE_PRESERVING)
+        tag = None
+        if val[0] == "agg" and val[1] == "necessity::Necessity":
+            tag = val[2]
+            val = strip(list(val[3].values())[0], mir.VALUE_PRESERVING)
+        item_ok = val[0] == "proj" and val[1][0] == "call" and len(val[1]) > 3 and val[1][3] == c and \
+            [e[1] if e[0] == "dc" else e[-1] for e in val[2] if e != "*"] == ["Some", "0"]
+        dst = _root_local_of(tp, term_of(tp, ps[0].node["args"][0]))
+        if item_ok and dst is not None and dst != src_local:
+            return ps[0], dst, tag
+    return None
+
+
 def pm12_attributes(r, R):
     """every Ok(attr) key is collected; existing child -> merge_attr(all Mandatory); new child -> constructor"""
     tp = R.tp
@@ -1248,20 +1284,33 @@ def pm12_attributes(r, R):
                 inner = strip(list(val[3].values())[0], mir.VALUE_PRESERVING)
             key_ok = _attr_key_exact(tp, inner, n)
             want_tag = "Mandatory" if path == "existing" else None
-            okp = not g and key_ok and tag == want_tag and src_ok
             vec_local = _root_local_of(tp, term_of(tp, c.node["args"][0]))
+            # the list may be re-wrapped element by element before it is used (names collected first, tagged afterwards)
+            stages = [(c, vec_local)]
+            for _ in range(2):
+                st2 = _elementwise_copy(tp, vec_local, blocks)
+                if st2 is None:
+                    break
+                c2, vec2, tag2 = st2
+                if tag2 is not None:
+                    tag = tag2 if tag is None else "twice"
+                vec_local = vec2
+                stages.append((c2, vec2))
+            okp = not g and key_ok and tag == want_tag and src_ok
             why = "every Ok(attribute) of this tag pushes its key%s" % (" as Mandatory" if want_tag else "") if okp else \
                 "attribute push: extra guards=%s key derives from the item=%s tag=%s iterates this tag's attributes=%s" % ([guard_s(x) for x in g], key_ok, tag, src_ok)
         ob(r, "PM12.attribute-collected", P + ("C06",), "%s: %s-child path" % (tp.name, path), okp, why, pushes[0] if pushes else n, "PM12|push|%s" % path)
         # the collected list reaches its consumer as collected: nothing but the loop's push ever takes it by unique reference
         if vec_local is not None and pushes:
             touch = []
+            own = {st[0] for st in stages}
+            lists = {st[1] for st in stages}
             for c in tp.calls():
-                if c == pushes[0]:
+                if c in own:
                     continue
                 for a in c.node["args"]:
                     pa = mir.op_place(a)
-                    if pa is not None and arg_ty(tp, a).get("s", "").startswith("&mut ") and tp.through_ref(pa)["l"] == vec_local:
+                    if pa is not None and arg_ty(tp, a).get("s", "").startswith("&mut ") and tp.through_ref(pa)["l"] in lists:
                         touch.append(c)
             okt = not touch
             ob(r, "PM12.collected-list-untouched", P + ("C09", "C06"), "%s: %s-child path" % (tp.name, path), okt,
@@ -1319,7 +1368,10 @@ def pm_reinsert(r, R):
         why = "on every Ok path the merged (or new) child is added back to the current element, which is returned" if ok else \
             "re-insertion: onto current=%s derives from the removed child=%s / from the new child=%s" % (recv, from_removed, from_new)
         rets = [strip(term_of(tp, s.node["rv"]["ops"][0])) for s in tp.assigns() if s.node["place"]["l"] == 0 and s.node["rv"]["k"] == "agg" and s.node["rv"]["variant"] == "Ok"]
-        ok = ok and all(x in (("arg", R.tp_param["root"]), ("local", R.tp_param["root"])) for x in rets)
+        if getattr(R, "tp_inplace", False):
+            ok = ok and all(x[0] == "const" or (x[0] == "agg" and x[1] == "tuple" and not x[3]) for x in rets)     # Ok(()): updated in place
+        else:
+            ok = ok and all(x in (("arg", R.tp_param["root"]), ("local", R.tp_param["root"])) for x in rets)
     ob(r, "PM15.child-reinserted", ("C01", "C03", "C06"), tp.name, ok, why, adds[0] if adds else mir.line_of(tp.span), "PM15|reinsert")
     # recursion result replaces the child
     all_rec = [c for c in tp.calls() if c.node["callee"].get("path") == R.el.name]
@@ -1508,6 +1560,13 @@ def pm15_monotone(r, R):
             fs = mir.place_fields(pl)
             if fs and fs[-1][0] == "element::Element" and fs[-1][1] in seen:
                 seen[fs[-1][1]].append((b, s))
+            # `Element { f: v, ..old }` writes exactly the fields it does not copy
+            from .common import element_update, PseudoSite
+            upd = element_update(b, s)
+            if upd:
+                for f, o in upd.items():
+                    if f in seen:
+                        seen[f].append((b, PseudoSite(s, {"k": "assign", "place": s.node["place"], "rv": {"k": "use", "op": o}, "span": s.node.get("span", {})})))
     for (b, s) in seen["standalone"]:
         rv = s.node["rv"]
         ok = rv["k"] == "use" and "const" in rv["op"] and rv["op"]["const"].get("bool") is False
@@ -1534,6 +1593,9 @@ def pm15_monotone(r, R):
         for s in b.assigns():
             rv = s.node["rv"]
             if rv["k"] == "agg" and rv.get("adt") == "element::Element":
+                from .common import element_update
+                if element_update(b, s) is not None:
+                    continue    # an update of an existing element: its changed fields are judged by the field rules above
                 vals = {f: strip(term_of(b, o)) for f, o in zip(rv["fields"], rv["ops"])}
                 ok = vals["standalone"] == ("const", True) and vals["count"] == ("const", 1) and vals["text"][0] == "agg" and vals["text"][2] == "None" and \
                     vals["children"][0] == "call" and vals["children"][1] == "std::vec::Vec::new"
@@ -1634,9 +1696,32 @@ def pm16_tree_to_fields(r, R):
         c = cot[0]
         from .common import is_conjunction_of
 
+        SLICE_VIEW = mir.TRANSPARENT_CALLS + ("std::vec::Vec::as_slice", "std::vec::Vec::iter", "core::slice::iter")
+
+        def field_of(x):
+            x = strip(x, SLICE_VIEW)
+            fs = [e[3] for e in x[2] if e != "*" and e[0] == "f"] if x[0] == "proj" and x[1] == ("arg", 1) else None
+            return fs[0] if fs and len(fs) == 1 else None
+
         def atom_of(t):
             m = t[1].rsplit("::", 1)[-1]
-            a = strip(t[2][0]) if t[2] else ("x",)
+            if t[1] in ("binop::Eq", "binop::Ne") and len(t[2]) == 2:
+                # `list.len() == 0` / a slice pattern `[]`: the length of a field compared with zero
+                sides = [strip(x) for x in t[2]]
+                zero = [x for x in sides if x == ("const", 0)]
+                other = [x for x in sides if x != ("const", 0)]
+                if len(zero) == 1 and len(other) == 1:
+                    o = other[0]
+                    inner = None
+                    if o[0] == "unop" and o[1] == "PtrMetadata":
+                        inner = o[2]
+                    elif o[0] == "call" and o[1].rsplit("::", 1)[-1] == "len" and o[2]:
+                        inner = o[2][0]
+                    f = field_of(inner) if inner is not None else None
+                    if f in ("attributes", "children"):
+                        return ("%s.is_empty" % f, t[1] == "binop::Eq")
+                return None
+            a = strip(t[2][0], SLICE_VIEW) if t[2] else ("x",)
             fs = [e[3] for e in a[2] if e != "*" and e[0] == "f"] if a[0] == "proj" and a[1] == ("arg", 1) else None
             if not fs or len(fs) != 1:
                 return None
